@@ -252,7 +252,8 @@ class Spec(EvalableModel):
             if not isinstance(leaf, Component):
                 continue
 
-            global_fanout = 1
+            # Instances of this component: its own fanout times the fanouts above it
+            global_fanout = leaf.get_fanout() if isinstance(leaf, Spatialable) else 1
             for p in parents:
                 if isinstance(p, Spatialable):
                     global_fanout *= p.get_fanout()
